@@ -51,7 +51,11 @@ class Model:
         if isinstance(it, tuple) and it and it[0] == "enumerate":
             return PyTuple([("pos", it[1]), ("elem", it[1])])
         if isinstance(it, tuple) and it and it[0] == "zip":
-            return PyTuple([("elem", x) for x in it[1]])
+            comps = it[1]
+            # law: zip(df[a].tolist(), df[b].tolist(), ...) over the SAME rows walks the rows of df: each component is that row's value of the column
+            if comps and all(isinstance(x, tuple) and len(x) == 3 and x[0] == "tolist" for x in comps) and len({x[2] for x in comps}) == 1:
+                return PyTuple([("at", ("row",), x[1]) for x in comps])
+            return PyTuple([("elem", x) for x in comps])
         # law: iterating [f(y) for y in L] yields f(y) for the elements y of L (same order)
         if isinstance(it, tuple) and len(it) == 5 and it[0] == "comp" and it[1] == "list" and it[4] == T.TRUE:
             body = it[2]
